@@ -3,13 +3,18 @@
 package main
 
 import (
+	"bytes"
 	"flag"
 	"fmt"
 	"os"
+	"os/exec"
+	"path/filepath"
 	"runtime/debug"
+	"runtime/pprof"
 	"sort"
 	"strconv"
 	"strings"
+	"sync"
 	"time"
 
 	"fpcheck/core"
@@ -23,6 +28,8 @@ func main() {
 	verif := flag.String("verif", "/verif", "verif directory (evidence, known_findings.json)")
 	only := flag.String("only", "", "print only obligations whose key contains this string (replay)")
 	list := flag.Bool("list", false, "list all obligations")
+	mutant := flag.String("mutant", "", "analyse the tree with the named self-test mutant applied as an overlay (evidence is not written)")
+	selftest := flag.Bool("selftest", false, "run the property's mutants only and print the table")
 	flag.Parse()
 	if *tier == "" {
 		*tier = os.Getenv("VERIF_TIER")
@@ -41,7 +48,31 @@ func main() {
 		fmt.Fprintf(os.Stderr, "unknown property %q; have %s\n", *prop, strings.Join(ks, " "))
 		os.Exit(2)
 	}
+	if pf := os.Getenv("FPCHECK_CPUPROFILE"); pf != "" {
+		f, _ := os.Create(pf)
+		pprof.StartCPUProfile(f)
+		go func() {
+			time.Sleep(60 * time.Second)
+			pprof.StopCPUProfile()
+			f.Close()
+			os.Exit(3)
+		}()
+	}
+	debug.SetGCPercent(800)
 	start := time.Now()
+	if *mutant != "" {
+		os.Exit(runMutant(p, *prop, *repo, *mutant))
+	}
+	if *selftest {
+		res, ok := selfTest(*prop, *repo)
+		for _, r := range res {
+			fmt.Println(r)
+		}
+		if !ok {
+			os.Exit(2)
+		}
+		return
+	}
 	code := run(p, *prop, *tier, *repo, *verif, seed, *only, *list, start)
 	os.Exit(code)
 }
@@ -67,5 +98,120 @@ func run(p rules.Property, prop, tier, repo, verif string, seed int, only string
 			}
 		}
 	}
-	return ctx.Finish(verif, seed, start, p.Explanation, nil)
+	extra := map[string]any{}
+	selfOK := true
+	if tier == "thorough" {
+		res, ok := selfTest(prop, repo)
+		selfOK = ok
+		extra["checker_selftest"] = res
+		extra["checker_selftest_rule"] = "each mutant = one anchored source fragment replaced through packages.Config.Overlay, analysed in a fresh process; the named rule must report a violation whose key contains the expected construct; a mutant whose anchor no longer exists is skipped and counted"
+		for _, r := range res {
+			fmt.Println("selftest:", r)
+		}
+	}
+	code = ctx.Finish(verif, seed, start, p.Explanation, extra)
+	if !selfOK && code == 0 {
+		fmt.Printf("CHECKER-SELFTEST-FAILED property=%s (a rule did not fire on a mutant it is meant to catch; see lines above)\n", prop)
+		return 2
+	}
+	return code
+}
+
+// runMutant analyses the tree with one mutant overlaid; prints violated keys; exit 1 if any violation.
+func runMutant(p rules.Property, prop, repo, name string) (code int) {
+	defer func() {
+		if r := recover(); r != nil {
+			fmt.Printf("MUTANT-PANIC %v\n%s\n", r, debug.Stack())
+			code = 2
+		}
+	}()
+	var m *rules.Mutant
+	for i := range rules.Mutants {
+		if rules.Mutants[i].Prop == prop && rules.Mutants[i].Name == name {
+			m = &rules.Mutants[i]
+		}
+	}
+	if m == nil {
+		fmt.Printf("MUTANT-UNKNOWN %s/%s\n", prop, name)
+		return 2
+	}
+	path := filepath.Join(repo, m.File)
+	src, err := os.ReadFile(path)
+	if err != nil || !bytes.Contains(src, []byte(m.Old)) {
+		fmt.Printf("MUTANT-SKIPPED anchor not present in %s\n", m.File)
+		return 3
+	}
+	mutated := bytes.Replace(src, []byte(m.Old), []byte(m.New), 1)
+	ctx, err := core.Load(repo, map[string][]byte{path: mutated})
+	if err != nil {
+		fmt.Printf("MUTANT-NOCOMPILE %v\n", err)
+		return 4
+	}
+	ctx.Prop, ctx.Tier = prop, "quick"
+	p.Run(ctx)
+	n := 0
+	for _, o := range ctx.Obls {
+		if o.Verdict == core.Violated {
+			n++
+			fmt.Printf("MUTANT-VIOLATION %s at %s: %s\n", o.Key, o.Pos, o.Msg)
+		}
+	}
+	if n > 0 {
+		return 1
+	}
+	return 0
+}
+
+func selfTest(prop, repo string) ([]string, bool) {
+	ms := rules.MutantsFor(prop)
+	out := make([]string, len(ms))
+	okAll := true
+	var mu sync.Mutex
+	var wg sync.WaitGroup
+	par := 6
+	if prop == "C04" || prop == "C05" || prop == "C19" {
+		par = 4
+	}
+	sem := make(chan struct{}, par)
+	exe, _ := os.Executable()
+	for i, m := range ms {
+		wg.Add(1)
+		go func(i int, m rules.Mutant) {
+			defer wg.Done()
+			sem <- struct{}{}
+			defer func() { <-sem }()
+			cmd := exec.Command(exe, "-prop", prop, "-repo", repo, "-mutant", m.Name)
+			b, _ := cmd.CombinedOutput()
+			code := cmd.ProcessState.ExitCode()
+			status := ""
+			switch {
+			case code == 3:
+				status = "skipped (anchor gone)"
+			case code == 4:
+				status = "skipped (mutant does not type-check any more)"
+			case code == 1:
+				hit := false
+				for _, l := range strings.Split(string(b), "\n") {
+					if strings.HasPrefix(l, "MUTANT-VIOLATION ") && strings.Contains(l, m.Expect) {
+						hit = true
+					}
+				}
+				if hit {
+					status = "caught"
+				} else {
+					status = "MISSED (violations reported, but not " + m.Expect + ")"
+				}
+			default:
+				status = fmt.Sprintf("MISSED (exit %d)", code)
+			}
+			mu.Lock()
+			if strings.HasPrefix(status, "MISSED") {
+				okAll = false
+			}
+			out[i] = fmt.Sprintf("%s/%s [%s: %s] expect %s: %s", prop, m.Name, m.File, m.Why, m.Expect, status)
+			mu.Unlock()
+		}(i, m)
+	}
+	wg.Wait()
+	return out, okAll
 }
